@@ -228,6 +228,11 @@ func (s *Sched) Run(threads ...func()) (deadlock bool) {
 				en = append(en, entry{x, a})
 			}
 		}
+		if os.Getenv("VERIF_SCHEDX_DEBUG") == "en" && len(s.Choices) == 0 {
+			for _, e := range en {
+				fmt.Fprintf(os.Stderr, "EN g%d alt%d what=%s alts=%d\n", e.g.id, e.alt, s.parked[e.g], e.g.alts)
+			}
+		}
 		c := 0
 		k := len(s.Choices)
 		if k < len(s.prefix) {
